@@ -1,8 +1,10 @@
 """Implementation runner, generator and oracle for the property-layer checks (C11, C18-layers).
 
-Protocol: see lean/Driver/Layers.lean.  Values cross the protocol as ints:
-bool layers 0/1, int layers as is, float layers in units of 1/4 (dyadic, exact in binary64).
-The operand of `mul` is a plain integer for every dtype.
+Protocol: see lean/Driver/Layers.lean.  Values cross the protocol as ints in the encoding of the array's
+*current* dtype (`arr.dtype.kind`): bool 0/1, int as is, float in units of 1/4 (dyadic, exact in binary64).
+A written value is either such a plain integer ("a value of the layer's own dtype") or a typed Python
+scalar `b:1` / `i:-3` / `f:11` (= 2.75) that numpy casts on the way in; a typed operand of `modify` decides
+the dtype of the re-pointed layer.  The operand of an untyped `mul` is a plain integer for every dtype.
 
 Protocol preconditions (answered by the harness without calling mesa, mirrored by the model):
 unknown layer id / handle / saved mask, coordinates of the wrong length, `place` of a placed agent,
@@ -13,6 +15,7 @@ names of the Cell class itself, `modcell` on the new implementation.
 from __future__ import annotations
 
 import itertools
+import os
 
 from . import core
 
@@ -33,6 +36,80 @@ BIN = {
     "xor": lambda x, v: int(bool(x) != bool(v)),
 }
 UN = {"neg": lambda x: -x, "not": lambda x: int(not x)}
+RANK = {"bool": 0, "int": 1, "float": 2}
+KIND = {"b": "bool", "i": "int", "f": "float"}
+
+
+def is_typed(tok):
+    return ":" in tok and tok.split(":")[0] in KIND
+
+
+def typed_parts(tok):
+    """`f:11` -> ("float", 11)"""
+    k, v = tok.split(":")
+    return KIND[k], int(v)
+
+
+def quarters(dt, v):
+    """the number an encoded entry stands for, in quarters"""
+    return v if dt == "float" else 4 * v
+
+
+def from_quarters(dt, q):
+    if dt == "float":
+        return q
+    if dt == "bool":
+        return int(q != 0)
+    assert q % 4 == 0, (dt, q)
+    return q // 4
+
+
+def spec_cast(dt, tok):
+    """what `arr[c] = x` stores in an array of dtype dt (the oracle's own statement of numpy's assignment cast):
+    truth value into bool, truncation toward zero into int, exact into float"""
+    ty, raw = typed_parts(tok)
+    q = quarters(ty, raw)
+    if dt == "float":
+        return q
+    if dt == "bool":
+        return int(q != 0)
+    return (abs(q) // 4) * (1 if q >= 0 else -1)
+
+
+def spec_same_kind(tok, dt):
+    return RANK[typed_parts(tok)[0]] <= RANK[dt]
+
+
+def spec_result_dtype(op, dt, tok):
+    """dtype of the layer after `modify_cells(op, x)`; None = numpy refuses the operation"""
+    ty = typed_parts(tok)[0]
+    if op in ("and", "or", "xor"):
+        return dt
+    if op == "sub" and dt == "bool" and ty == "bool":
+        return None
+    return dt if RANK[dt] >= RANK[ty] else ty
+
+
+def spec_typed_oper(op, dt, tok):
+    """entry of dtype dt -> entry in the encoding of the *new* dtype of the layer"""
+    ty, raw = typed_parts(tok)
+    w = quarters(ty, raw)
+    nd = spec_result_dtype(op, dt, tok)
+
+    def f(x):
+        q = quarters(dt, x)
+        if op in ("and", "or", "xor"):
+            r = 4 * BIN[op](q, w)
+        elif op == "mul":
+            assert (q * w) % 4 == 0
+            r = q * w // 4
+        else:
+            r = BIN[op](q, w)
+        if op not in ("and", "or", "xor") and dt == "bool" and ty == "bool":
+            r = 4 * int(r != 0)  # + * max min on two bools are or / and
+        return from_quarters(nd, r)
+
+    return f
 
 
 def _mesa():
@@ -47,6 +124,235 @@ def _mesa():
     return dict(np=np, Cell=Cell, Agent=Agent, Model=Model, CellAgent=CellAgent, HexGrid=HexGrid,
                 OrthogonalMooreGrid=OrthogonalMooreGrid, OrthogonalVonNeumannGrid=OrthogonalVonNeumannGrid,
                 NewLayer=NewLayer, OldLayer=OldLayer, MultiGrid=MultiGrid, SingleGrid=SingleGrid)
+
+
+# --------------------------------------------------------------------------------------
+# generated model part: the attribute names of the grid's cell class (`add_property_layer`'s clash rule
+# is `hasattr(self.cell_klass, layer.name)`), re-extracted from the checked source on every run
+
+
+def _cell_ast_names(repo):
+    """names the *source* gives every cell of a Grid: `Cell.__slots__`, the methods, properties and other
+    class-level names of `class Cell` (cell.py) and the dict of the dynamic `GridCell` class (grid.py)"""
+    import ast
+
+    ds = os.path.join(repo, "mesa", "discrete_space")
+    tree = ast.parse(open(os.path.join(ds, "cell.py")).read())
+    cls = next(n for n in tree.body if isinstance(n, ast.ClassDef) and n.name == "Cell")
+    if any(not (isinstance(b, ast.Name) and b.id == "object") for b in cls.bases):
+        raise LookupError("Cell has base classes")
+    slots, methods, props, attrs = None, [], [], []
+    for n in cls.body:
+        if isinstance(n, ast.FunctionDef | ast.AsyncFunctionDef):
+            decos = {d.id if isinstance(d, ast.Name) else getattr(d, "attr", "?") for d in n.decorator_list}
+            (props if decos & {"property", "cached_property"} else methods).append(n.name)
+        elif isinstance(n, ast.Assign | ast.AnnAssign):
+            targets = n.targets if isinstance(n, ast.Assign) else [n.target]
+            for t in targets:
+                if not isinstance(t, ast.Name):
+                    raise LookupError("class-level assignment to a non-name")
+                if t.id == "__slots__":
+                    if not (isinstance(n.value, ast.List | ast.Tuple)
+                            and all(isinstance(e, ast.Constant) and isinstance(e.value, str) for e in n.value.elts)):
+                        raise LookupError("__slots__ is not a literal list of strings")
+                    slots = [e.value for e in n.value.elts]
+                elif isinstance(n, ast.Assign) or n.value is not None:
+                    attrs.append(t.id)
+    if slots is None:
+        raise LookupError("Cell.__slots__ not found")
+    gtree = ast.parse(open(os.path.join(ds, "grid.py")).read())
+    gcls = next(n for n in gtree.body if isinstance(n, ast.ClassDef) and n.name == "Grid")
+    init = next(n for n in gcls.body if isinstance(n, ast.FunctionDef) and n.name == "__init__")
+    dyn = None
+    for n in ast.walk(init):
+        if (isinstance(n, ast.Call) and isinstance(n.func, ast.Name) and n.func.id == "type" and len(n.args) == 3
+                and isinstance(n.args[0], ast.Constant) and n.args[0].value == "GridCell" and isinstance(n.args[2], ast.Dict)):
+            if not all(isinstance(k, ast.Constant) and isinstance(k.value, str) for k in n.args[2].keys):
+                raise LookupError("GridCell class dict has non-literal keys")
+            dyn = [k.value for k in n.args[2].keys]
+    if dyn is None:
+        raise LookupError("type('GridCell', ...) call not found in Grid.__init__")
+    return {"slots": sorted(slots), "methods": sorted(methods), "properties": sorted(props),
+            "classAttrs": sorted(attrs), "gridCellDict": sorted(dyn)}
+
+
+def _python_implied_names():
+    """what Python itself gives a class of that shape (slotted base with `__dict__`, dynamic subclass): the
+    attributes of `object` plus `__dict__`, `__doc__`, `__module__`, `__slots__`, `__weakref__` — no mesa involved"""
+    base = type("Base", (), {"__slots__": ["__dict__"], "__doc__": "x"})
+    return sorted(set(dir(type("Sub", (base,), {}))))
+
+
+_PROBE = None
+
+
+def cell_klass_probe():
+    """`dir(grid.cell_klass)` of a fresh grid of the running code, without the layer descriptors"""
+    global _PROBE
+    if _PROBE is None:
+        M = _mesa()
+        g = M["OrthogonalMooreGrid"]((2, 2), random=M["Model"](seed=0).random)
+        _PROBE = sorted(set(dir(g.cell_klass)) - set(g._mesa_property_layers))
+    return _PROBE
+
+
+def _lean_strs(l):
+    out, line = [], "  ["
+    for i, x in enumerate(l):
+        item = '"' + x + '"' + ("," if i < len(l) - 1 else "]")
+        if len(line) + len(item) > 100:
+            out.append(line.rstrip())
+            line = "   "
+        line += item + " "
+    if not l:
+        line += "]"
+    out.append(line.rstrip())
+    return "\n".join(out)
+
+
+# generated tie to numpy: the model's cast / promotion rules are *proved equal* to tables probed from the numpy of the
+# running interpreter (Props/C11.lean: C11_cast_rules_match_numpy, C11_ufunc_types_match_numpy,
+# C11_cast_values_match_numpy).  dtypes are coded by their rank: 0 = bool_, 1 = int64, 2 = float64.
+
+_NP_ARRAY_SAMPLES = {"bool": [0, 1], "int": [-3, 2], "float": [-6, 10]}       # entries, encoded
+_NP_SCALAR_SAMPLES = {"bool": [0, 1], "int": [-3, 2], "float": [-11, 2]}      # Python scalars, encoded
+_NP_ASSIGN_SAMPLES = {"bool": [0, 1], "int": [-7, -3, -1, 0, 1, 2, 5],
+                      "float": [-11, -8, -5, -4, -3, -2, -1, 0, 1, 2, 3, 4, 5, 8, 10, 11]}
+
+
+def _numpy_tables():
+    import warnings
+
+    import numpy as np
+
+    pyty = {"bool": bool, "int": int, "float": float}
+
+    def scalar(t, raw):
+        return bool(raw) if t == "bool" else int(raw) if t == "int" else raw / UNIT
+
+    def code(dtype):
+        return {"b": 0, "i": 1, "f": 2}[np.dtype(dtype).kind]
+
+    def enc(x):
+        """(rank of the value's dtype, entry in that dtype's encoding); None if not representable"""
+        k = code(np.asarray(x).dtype)
+        if k == 0:
+            return k, int(bool(x))
+        if k == 1:
+            return k, int(x)
+        y = float(x) * UNIT
+        return (k, int(y)) if y == int(y) else None
+
+    ufuncs = {"add": np.add, "sub": np.subtract, "mul": np.multiply, "max": np.maximum, "min": np.minimum,
+              "and": np.logical_and, "or": np.logical_or, "xor": np.logical_xor}
+
+    def fn_of(op, w):
+        return {"add": lambda x: x + w, "sub": lambda x: x - w, "mul": lambda x: x * w,
+                "and": lambda x: bool(x) and bool(w), "or": lambda x: bool(x) or bool(w),
+                "xor": lambda x: bool(x) != bool(w)}[op]
+
+    copy_scalar, copy_array, where_t, uf_t, fn_t, assign, full, uf_v = [], [], [], [], [], [], [], []
+    with warnings.catch_warnings():
+        warnings.simplefilter("ignore")
+        for a in DTYPES:
+            for b in DTYPES:
+                for table, src in ((copy_scalar, scalar(a, 1)), (copy_array, np.ones(2, dtype=pyty[a]))):
+                    try:
+                        np.copyto(np.zeros(2, dtype=pyty[b]), src)
+                        ok = True
+                    except TypeError:
+                        ok = False
+                    table.append(f"(({RANK[a]}, {RANK[b]}), {'true' if ok else 'false'})")
+                r = np.where(np.array([True, False]), np.zeros(2, dtype=pyty[a]), np.zeros(2, dtype=pyty[b]))
+                where_t.append(f"(({RANK[a]}, {RANK[b]}), {code(r.dtype)})")
+        for op, uf in ufuncs.items():
+            for d in DTYPES:
+                for t in DTYPES:
+                    try:
+                        r = f"some {code(uf(np.zeros(2, dtype=pyty[d]), scalar(t, 1)).dtype)}"
+                    except TypeError:
+                        r = "none"
+                    uf_t.append(f'(("{op}", {RANK[d]}, {RANK[t]}), {r})')
+                    if op not in ("max", "min"):
+                        try:
+                            r = f"some {code(np.vectorize(fn_of(op, scalar(t, 1)))(np.zeros(2, dtype=pyty[d])).dtype)}"
+                        except TypeError:
+                            r = "none"
+                        fn_t.append(f'(("{op}", {RANK[d]}, {RANK[t]}), {r})')
+                    for v in _NP_ARRAY_SAMPLES[d]:
+                        for raw in _NP_SCALAR_SAMPLES[t]:
+                            try:
+                                e = enc(uf(np.array([scalar(d, v)], dtype=pyty[d]), scalar(t, raw))[0])
+                            except TypeError:
+                                continue
+                            if e is not None:
+                                uf_v.append(f'uv "{op}" {RANK[d]} ({v}) {RANK[t]} ({raw}) ({e[1]})')
+        for d in DTYPES:
+            for t in DTYPES:
+                for raw in _NP_ASSIGN_SAMPLES[t]:
+                    arr = np.zeros(1, dtype=pyty[d])
+                    arr[0] = scalar(t, raw)
+                    assign.append(f"av {RANK[d]} {RANK[t]} ({raw}) ({enc(arr[0])[1]})")
+                    full.append(f"av {RANK[d]} {RANK[t]} ({raw}) ({enc(np.full((1, 2), scalar(t, raw), dtype=pyty[d])[0, 1])[1]})")
+
+    def lst(items, per=4):
+        rows = [", ".join(items[i:i + per]) for i in range(0, len(items), per)]
+        return "  [" + ",\n   ".join(rows) + "]"
+
+    L = ["/-! GENERATED by harness/layers_common.py `_numpy_tables()` from the numpy of the running interpreter — rewritten on",
+         "every check, do not edit.  dtypes are coded by rank: 0 = bool_, 1 = int64, 2 = float64; entries and Python scalars are",
+         "in the encoding of their type (bool 0/1, the integer, floats in quarters).",
+         "`npCopytoScalar` / `npCopytoArray`: does `np.copyto(array of dtype dst, scalar / array of type src)` accept the cast;",
+         "`npWhereType`: dtype of `np.where(cond, a, b)`; `npUfuncType`: dtype of `ufunc(array of dtype d, Python scalar of type t)`",
+         "(`none`: TypeError); `npFnType`: dtype of `np.vectorize(lambda x: x OP scalar)(array)`; `npAssign`: the entry after",
+         "`arr[0] = scalar`, keyed (dtype of arr, type of scalar, scalar); `npFull`: the entries of `np.full(shape, scalar, dtype)`;",
+         "`npUfuncValue`: `ufunc(array([v], dtype d), scalar)[0]` in the encoding of the result dtype, keyed (op, d, v, t, scalar). -/",
+         "namespace Mesa.Layers.Gen", "",
+         f'def numpyVersion : String := "{np.__version__}"',
+         "def av (d t : Nat) (raw r : Int) : (Nat × Nat × Int) × Int := ((d, t, raw), r)",
+         "def uv (op : String) (d : Nat) (v : Int) (t : Nat) (raw r : Int) : (String × Nat × Int × Nat × Int) × Int :=",
+         "  ((op, d, v, t, raw), r)",
+         f"def npCopytoScalar : List ((Nat × Nat) × Bool) :=\n{lst(copy_scalar, 3)}",
+         f"def npCopytoArray : List ((Nat × Nat) × Bool) :=\n{lst(copy_array, 3)}",
+         f"def npWhereType : List ((Nat × Nat) × Nat) :=\n{lst(where_t, 3)}",
+         f"def npUfuncType : List ((String × Nat × Nat) × Option Nat) :=\n{lst(uf_t, 3)}",
+         f"def npFnType : List ((String × Nat × Nat) × Option Nat) :=\n{lst(fn_t, 3)}",
+         f"def npAssign : List ((Nat × Nat × Int) × Int) :=\n{lst(assign, 5)}",
+         f"def npFull : List ((Nat × Nat × Int) × Int) :=\n{lst(full, 5)}",
+         f"def npUfuncValue : List ((String × Nat × Int × Nat × Int) × Int) :=\n{lst(uf_v, 3)}",
+         "", "end Mesa.Layers.Gen"]
+    return "\n".join(L) + "\n"
+
+
+def gen_tables():
+    """{relative lean path: content} — rewritten from MESA_REPO on every check"""
+    probe = cell_klass_probe()
+    implied = _python_implied_names()
+    try:
+        at = _cell_ast_names(core.REPO)
+        how = "ast"
+    except (LookupError, StopIteration, SyntaxError, OSError) as e:
+        # harmless refactor of the class body's shape: fall back to what the running code reports
+        rest = sorted(set(probe) - set(implied))
+        at = {"slots": [], "methods": rest, "properties": [], "classAttrs": [], "gridCellDict": []}
+        how = f"probe (AST shape not found: {type(e).__name__})"
+    L = ["/-! GENERATED by harness/layers_common.py `gen_tables()` from mesa/discrete_space/cell.py and grid.py of the",
+         "checked repository — rewritten on every check, do not edit.",
+         "`cellSlots` … `gridCellDict`: names found in the source (AST of `class Cell` and of the `type(\"GridCell\", …)` call",
+         "in `Grid.__init__`); `pythonImplied`: what Python gives any class of that shape; `cellKlassProbe`:",
+         "`dir(grid.cell_klass)` of a fresh grid of the running code, layer descriptors removed. -/",
+         "namespace Mesa.Layers.Gen", "",
+         f'def tablesFrom : String := "{how}"',
+         f"def cellSlots : List String :=\n{_lean_strs(at['slots'])}",
+         f"def cellMethods : List String :=\n{_lean_strs(at['methods'])}",
+         f"def cellProperties : List String :=\n{_lean_strs(at['properties'])}",
+         f"def cellClassAttrs : List String :=\n{_lean_strs(at['classAttrs'])}",
+         f"def gridCellDict : List String :=\n{_lean_strs(at['gridCellDict'])}",
+         f"def pythonImplied : List String :=\n{_lean_strs(implied)}",
+         f"def cellKlassProbe : List String :=\n{_lean_strs(probe)}",
+         "", "end Mesa.Layers.Gen"]
+    return {"MesaModel/Gen/LayersTables.lean": "\n".join(L) + "\n",
+            "MesaModel/Gen/NumpyTables.lean": _numpy_tables()}
 
 
 def parse_coord(s):
@@ -69,6 +375,10 @@ class Reject(Exception):
     """a protocol-level / mapped error: the observation is `err <text>`"""
 
 
+class _Plain:
+    """what `gset NAME` assigns to the grid object: any object that is not a property layer"""
+
+
 class Impl:
     """drives real mesa with one scenario; snapshots the observable state after every line and
     evaluates the property's clauses on consecutive snapshots"""
@@ -77,6 +387,7 @@ class Impl:
         M = _mesa()
         self.M, self.np = M, M["np"]
         self.kind, self.dims, self.cap = kind, tuple(dims), cap
+        self.gridclass = gridclass
         self.model = M["Model"](seed=0)
         self.cells = all_cells(self.dims)
         if kind == "new":
@@ -90,6 +401,7 @@ class Impl:
             self.layers = []
         self.handles, self.masks, self.agents, self.where = {}, {}, {}, {}
         self.tainted = False  # the user wrote to / removed the built-in emptiness layer
+        self.gset_names = set()  # names the scenario assigned on the grid object itself (`gset`)
         self.bad, self.tags = [], set()
         self.prev = self.snapshot()
 
@@ -118,17 +430,44 @@ class Impl:
 
     def canon_arr(self, dtype, arr):
         want = {"bool": "b", "int": "i", "float": "f"}[dtype]
-        if arr.dtype.kind != want and not (dtype == "int" and arr.dtype.kind == "f"):
-            # (an int layer may have been promoted to float64 by a bulk modify with an integral float operand;
-            # `canon` below still insists on integral values)
-            raise AssertionError(f"dtype of a {dtype} layer became {arr.dtype}")
+        if arr.dtype.kind != want:
+            raise AssertionError(f"array read as {dtype} has dtype {arr.dtype}")
         return tuple(self.canon(dtype, x) for x in arr.reshape(-1).tolist())
+
+    def dkind(self, arr):
+        """the protocol's name of the array's current dtype"""
+        k = KIND.get(self.np.asarray(arr).dtype.kind)
+        if k is None:
+            raise AssertionError(f"unexpected dtype {arr.dtype}")
+        return k
+
+    def canon_obj(self, x):
+        """a Python object kept in a cell's instance dict, by its own type"""
+        np = self.np
+        if isinstance(x, bool | np.bool_):
+            return int(bool(x))
+        if isinstance(x, int | np.integer):
+            return int(x)
+        return self.canon("float", x)
+
+    def pyval(self, dtype, tok):
+        """a written value: plain integer = a value of the array's own dtype; typed = that Python scalar"""
+        if is_typed(tok):
+            ty, raw = typed_parts(tok)
+            if ty == "bool" and raw not in (0, 1):
+                raise ValueError("bad-op")
+            return self.to_py(ty, raw)
+        return self.to_py(dtype, int(tok))
 
     # ------------------------------------------------------------------ lookups
     def layer(self, lid):
+        """(layer object, its *current* dtype)"""
         if lid >= len(self.layers):
             raise Reject("NoLayer")
-        return self.layers[lid]
+        return self.layers[lid][0], self.dkind(self.layers[lid][0].data)
+
+    def dt_of(self, layer):
+        return self.dkind(layer.data)
 
     def ldims(self, layer):
         return tuple(layer.dimensions) if self.kind == "new" else (layer.width, layer.height)
@@ -156,18 +495,22 @@ class Impl:
     # ------------------------------------------------------------------ snapshot
     def snapshot(self):
         np = self.np
-        snap = {"layers": [self.canon_arr(dt, l.data) for l, dt in self.layers]}
+        snap = {"layers": [self.canon_arr(self.dt_of(l), l.data) for l, _ in self.layers],
+                "dtypes": [self.dt_of(l) for l, _ in self.layers]}
         att = {}
         views = {}
         for name, l in self.attached().items():
             lid = self.lid_of(l)
             att[name] = lid
-            dt = self.layers[lid][1]
+            dt = snap["dtypes"][lid]
             if self.kind == "new":
                 views[name] = tuple(self.canon(dt, getattr(self.grid[c], name)) for c in self.cells)
             else:
                 views[name] = tuple(self.canon(dt, l.data[c]) for c in self.cells)
         snap["attached"], snap["views"] = att, views
+        # the third view: grid.<name> is the layer object itself (new: HasPropertyLayers.__getattr__)
+        snap["gattr"] = ({name: getattr(self.grid, name, None) is l for name, l in self.attached().items()}
+                         if self.kind == "new" else {})
         if self.kind == "new":
             try:
                 snap["actual"] = tuple(int(self.grid[c].is_empty) for c in self.cells)
@@ -175,14 +518,15 @@ class Impl:
                 snap["actual"] = None
                 self.fail("occupancy", f"cell.is_empty raised {type(ex).__name__}: {ex}")
             e = self.named("empty")
-            snap["empty"] = None if e is None else self.canon_arr(self.layers[self.lid_of(e)][1], np.asarray(e.data))
-            snap["inst"] = {(k, c): self.canon("int", v) for c in self.cells for k, v in self.grid[c].__dict__.items()
-                            if isinstance(v, bool | int | np.bool_ | np.integer)}
+            snap["empty"] = None if e is None else self.canon_arr(self.dt_of(e), np.asarray(e.data))
+            snap["inst"] = {(k, c): self.canon_obj(v) for c in self.cells for k, v in self.grid[c].__dict__.items()
+                            if isinstance(v, bool | int | float | np.bool_ | np.integer | np.floating)}
         else:
             snap["actual"] = tuple(int(self.grid.is_cell_empty(c)) for c in self.cells)
             snap["empty"] = self.canon_arr("bool", self.grid.empty_mask)
             snap["inst"] = {}
         snap["where"] = dict(self.where)
+        snap["handles"] = {h: self.canon_arr(dt, arr) for h, (arr, dt) in self.handles.items()}
         return snap
 
     # ------------------------------------------------------------------ parsing of operands
@@ -204,9 +548,24 @@ class Impl:
         k, t = s.split(":")
         return lambda x, f=CMP[k], t=int(t): f(x, t)
 
-    def operation(self, dtype, kind, op, v):
+    def operation(self, dtype, kind, op, v, single=False):
         """-> (callable, value argument)"""
         np = self.np
+        if is_typed(v):
+            # a Python scalar of its own type: numpy's result type decides the dtype of the re-pointed layer
+            # (bulk form: a Python function must have a result type that does not depend on the value)
+            if op not in BIN or (kind == "fn" and op in ("max", "min") and not single):
+                raise ValueError("bad-op")
+            w = self.pyval(dtype, v)
+            if kind == "ufunc":
+                uf = {"add": np.add, "sub": np.subtract, "mul": np.multiply, "max": np.maximum, "min": np.minimum,
+                      "and": np.logical_and, "or": np.logical_or, "xor": np.logical_xor}[op]
+                return uf, w
+            fn = {"add": lambda x: x + w, "sub": lambda x: x - w, "mul": lambda x: x * w,
+                  "max": lambda x: max(x, w), "min": lambda x: min(x, w),
+                  "and": lambda x: bool(x) and bool(w), "or": lambda x: bool(x) or bool(w),
+                  "xor": lambda x: bool(x) != bool(w)}[op]
+            return fn, None
         if kind == "ufunc":
             uf = {"add": np.add, "sub": np.subtract, "mul": np.multiply, "max": np.maximum, "min": np.minimum,
                   "and": np.logical_and, "or": np.logical_or, "xor": np.logical_xor,
@@ -228,10 +587,6 @@ class Impl:
         return fn, None
 
     def operand(self, dtype, op, v):
-        if dtype == "int" and op in ("add", "sub", "max", "min") and v % 3 == 0:
-            # an integral float operand on an int layer: the values stay integers (the protocol does not see a
-            # difference) but numpy promotes the result to float64 — a dtype-changing bulk modify
-            return float(v)
         if op == "mul":
             return float(v) if dtype == "float" else int(v)
         if op in ("and", "or", "xor"):
@@ -272,9 +627,9 @@ class Impl:
             _, name, dt, d = w
             try:
                 if new:
-                    layer = self.grid.create_property_layer(name, default_value=self.to_py(dt, int(d)), dtype=eval(dt))
+                    layer = self.grid.create_property_layer(name, default_value=self.pyval(dt, d), dtype=eval(dt))
                 else:
-                    layer = self.M["OldLayer"](name, self.dims[0], self.dims[1], self.to_py(dt, int(d)), dtype=eval(dt))
+                    layer = self.M["OldLayer"](name, self.dims[0], self.dims[1], self.pyval(dt, d), dtype=eval(dt))
                     self.grid.add_property_layer(layer)
             except ValueError as e:
                 raise self.value_error(e) from None
@@ -285,13 +640,13 @@ class Impl:
             dims = parse_dims(dims)
             try:
                 if new and sum(map(ord, "".join(w))) % 2 == 0 and all(dims):
-                    layer = self.M["NewLayer"].from_data(name, np.full(dims, self.to_py(dt, int(d)), dtype=eval(dt)))
+                    layer = self.M["NewLayer"].from_data(name, np.full(dims, self.pyval(dt, d), dtype=eval(dt)))
                 elif new:
-                    layer = self.M["NewLayer"](name, dims, default_value=self.to_py(dt, int(d)), dtype=eval(dt))
+                    layer = self.M["NewLayer"](name, dims, default_value=self.pyval(dt, d), dtype=eval(dt))
                 else:
                     if len(dims) != 2:
                         raise Reject("Value dims")
-                    layer = self.M["OldLayer"](name, dims[0], dims[1], self.to_py(dt, int(d)), dtype=eval(dt))
+                    layer = self.M["OldLayer"](name, dims[0], dims[1], self.pyval(dt, d), dtype=eval(dt))
             except ValueError as e:
                 raise self.value_error(e) from None
             self.layers.append((layer, dt))
@@ -322,9 +677,9 @@ class Impl:
                 if k == "lget":
                     return f"ok v={self.canon(dt, layer.data[c])}"
                 if new:
-                    layer.data[c] = self.to_py(dt, int(w[3]))
+                    layer.data[c] = self.pyval(dt, w[3])
                 else:
-                    layer.set_cell(c, self.to_py(dt, int(w[3])))
+                    layer.set_cell(c, self.pyval(dt, w[3]))
             except IndexError:
                 raise Reject("Index") from None
             self.taint_lid(int(w[1]))
@@ -340,13 +695,14 @@ class Impl:
                 if self.reserved(name):
                     raise Reject("Attr")
                 layer = self.named(name)
-                dt = self.layers[self.lid_of(layer)][1] if layer is not None else "int"
+                dt = self.dt_of(layer) if layer is not None else "int"
                 if k == "cget":
                     try:
-                        return f"ok v={self.canon(dt, getattr(cell, name))}"
+                        v = getattr(cell, name)
                     except AttributeError:
                         raise Reject("Attr") from None
-                setattr(cell, name, self.to_py(dt, int(w[3])))
+                    return f"ok v={self.canon(dt, v) if layer is not None else self.canon_obj(v)}"
+                setattr(cell, name, self.pyval(dt, w[3]))
                 if name == "empty":
                     self.tainted = True
                 return "ok"
@@ -354,25 +710,75 @@ class Impl:
                 layer = self.grid.properties[name]
             except KeyError:
                 raise Reject("Key") from None
-            dt = self.layers[self.lid_of(layer)][1]
+            dt = self.dt_of(layer)
             self.coord_for(c, self.ldims(layer))
             try:
                 if k == "cget":
                     return f"ok v={self.canon(dt, layer.data[c])}"
-                layer.set_cell(c, self.to_py(dt, int(w[3])))
+                layer.set_cell(c, self.pyval(dt, w[3]))
             except IndexError:
                 raise Reject("Index") from None
+            return "ok"
+        if k in ("cset2", "cget2"):
+            # the same layer object added to a second grid as well: its cells get the attribute too
+            if not new:
+                raise Reject("Impl")
+            layer, dt = self.layer(int(w[1]))
+            c = parse_coord(w[2])
+            try:
+                g2 = self.M["OrthogonalMooreGrid"](tuple(layer.dimensions), torus=False, random=self.model.random)
+                g2.add_property_layer(layer)
+            except ValueError as e:
+                raise self.value_error(e) from None
+            self.coord_for(c, self.ldims(layer))
+            try:
+                cell = g2[c]
+            except KeyError:
+                raise Reject("Index") from None
+            if k == "cget2":
+                return f"ok v={self.canon(dt, getattr(cell, layer.name))}"
+            setattr(cell, layer.name, self.pyval(dt, w[3]))
+            self.taint_lid(int(w[1]))
             return "ok"
         if k == "setcells":
             layer, dt = self.layer(int(w[1]))
             cond = None if w[3] == "-" else self.pred(dt, w[3])
             variant = sum(map(ord, "".join(w))) % 3
-            if new and variant == 1 and self.named(layer.name) is layer:
-                self.grid.set_property(layer.name, self.to_py(dt, int(w[2])), cond)  # the grid-level wrapper
-            elif new and variant == 2 and cond is None:
-                layer.data = self.to_py(dt, int(w[2]))  # the property setter is set_cells
-            else:
-                layer.set_cells(self.to_py(dt, int(w[2])), cond)
+            val = self.pyval(dt, w[2])
+            try:
+                if new and variant == 1 and self.named(layer.name) is layer:
+                    self.grid.set_property(layer.name, val, cond)  # the grid-level wrapper
+                elif new and variant == 2 and cond is None:
+                    layer.data = val  # the property setter is set_cells
+                else:
+                    layer.set_cells(val, cond)
+            except TypeError as e:
+                if "Cannot cast" in str(e):
+                    raise Reject("Type") from None  # np.copyto refuses a cast that is not same_kind
+                raise
+            self.taint_lid(int(w[1]))
+            return "ok"
+        if k == "setfrom":
+            # set_cells with an array value (one entry per cell) the user holds
+            layer, dt = self.layer(int(w[1]))
+            if int(w[2]) not in self.handles:
+                raise Reject("NoHandle")
+            arr, _ = self.handles[int(w[2])]
+            if tuple(arr.shape) != tuple(self.ldims(layer)):
+                raise Reject("Value dims")  # protocol precondition: numpy would broadcast or raise
+            cond = None if w[3] == "-" else self.pred(dt, w[3])
+            variant = sum(map(ord, "".join(w))) % 3
+            try:
+                if new and variant == 1 and self.named(layer.name) is layer:
+                    self.grid.set_property(layer.name, arr, cond)
+                elif new and variant == 2 and cond is None:
+                    layer.data = arr
+                else:
+                    layer.set_cells(arr, cond)
+            except TypeError as e:
+                if "Cannot cast" in str(e):
+                    raise Reject("Type") from None
+                raise
             self.taint_lid(int(w[1]))
             return "ok"
         if k == "modify":
@@ -386,6 +792,10 @@ class Impl:
                     layer.modify_cells(fn, val, cond)
             except ValueError as e:
                 raise self.value_error(e) from None
+            except TypeError as e:
+                if is_typed(w[4]) and "boolean subtract" in str(e):
+                    raise Reject("Type") from None  # numpy has no bool - bool
+                raise
             self.taint_lid(int(w[1]))
             return "ok"
         if k == "modcell":
@@ -393,19 +803,40 @@ class Impl:
                 raise Reject("Impl")
             layer, dt = self.layer(int(w[1]))
             c = self.coord_for(parse_coord(w[2]), self.ldims(layer))
-            fn, val = self.operation(dt, w[3], w[4], w[5])
+            if is_typed(w[5]):
+                try:
+                    layer.data[c]
+                except IndexError:
+                    raise Reject("Index") from None
+            fn, val = self.operation(dt, w[3], w[4], w[5], single=True)
             try:
                 layer.modify_cell(c, fn, val)
             except IndexError:
                 raise Reject("Index") from None
             except ValueError as e:
                 raise self.value_error(e) from None
+            except TypeError as e:
+                if is_typed(w[5]) and "boolean subtract" in str(e):
+                    raise Reject("Type") from None
+                raise
             return "ok"
         if k == "grab":
             layer, dt = self.layer(int(w[2]))
-            self.handles[int(w[1])] = (layer.data, dt)
+            self.handles[int(w[1])] = (layer.data, dt)  # an array never changes its dtype
             self.taint_lid(int(w[2]))
             return "ok"
+        if k == "fromdata":
+            if not new:
+                raise Reject("Impl")
+            if int(w[2]) not in self.handles:
+                raise Reject("NoHandle")
+            arr, dt = self.handles[int(w[2])]
+            try:
+                layer = self.M["NewLayer"].from_data(w[1], arr)
+            except IndexError:
+                raise Reject("Index") from None
+            self.layers.append((layer, dt))
+            return f"ok id={len(self.layers) - 1}"
         if k in ("hget", "hset", "hdump"):
             if int(w[1]) not in self.handles:
                 raise Reject("NoHandle")
@@ -416,10 +847,13 @@ class Impl:
             try:
                 if k == "hget":
                     return f"ok v={self.canon(dt, arr[c])}"
-                arr[c] = self.to_py(dt, int(w[3]))
+                arr[c] = self.pyval(dt, w[3])
             except IndexError:
                 raise Reject("Index") from None
             return "ok"
+        if k == "dtype":
+            layer, dt = self.layer(int(w[1]))
+            return f"ok dt={dt}"
         if k == "dump":
             layer, dt = self.layer(int(w[1]))
             return "ok arr=" + ",".join(map(str, self.canon_arr(dt, layer.data)))
@@ -430,8 +864,19 @@ class Impl:
                 raise Reject("Attr") from None
             except KeyError:
                 raise Reject("Key") from None
-            dt = self.layers[self.lid_of(layer)][1]
+            if new and not isinstance(layer, self.M["NewLayer"]):
+                raise Reject("Shadowed")  # an attribute the scenario itself gave the grid object
+            dt = self.dt_of(layer)
             return "ok arr=" + ",".join(map(str, self.canon_arr(dt, layer.data)))
+        if k == "gset":
+            if not new:
+                raise Reject("Impl")
+            try:
+                setattr(self.grid, w[1], _Plain())  # HasPropertyLayers.__setattr__
+            except AttributeError:
+                raise Reject("Attr") from None
+            self.gset_names.add(w[1])
+            return "ok"
         if k == "lsel":
             layer, dt = self.layer(int(w[1]))
             p = self.pred(dt, w[2])
@@ -447,11 +892,8 @@ class Impl:
             return self.agent_op(k, w)
         if k == "empties":
             if new:
-                try:
-                    e = self.grid.empty
-                    view = ",".join(map(str, self.canon_arr(self.layers[self.lid_of(e)][1], np.asarray(e.data))))
-                except AttributeError:
-                    view = "none"
+                e = self.named("empty")  # (the attribute path grid.<name> is read by `dumpn`)
+                view = "none" if e is None else ",".join(map(str, self.canon_arr(self.dt_of(e), np.asarray(e.data))))
                 actual = "".join(str(int(self.grid[c].is_empty)) for c in self.cells)
             else:
                 view = ",".join(map(str, self.canon_arr("bool", self.grid.empty_mask)))
@@ -459,6 +901,26 @@ class Impl:
             return f"ok view={view} actual={actual}"
         if k == "select":
             return self.select(w)
+        if k == "nbmask":
+            if len(w) != (5 if new else 6) or w[3] not in ("0", "1"):
+                raise ValueError(f"bad-op {w}")
+            if new and self.gridclass == "hex":
+                raise Reject("Impl")  # the model has no hex geometry
+            K, c, ic, r = int(w[1]), parse_coord(w[2]), w[3] == "1", int(w[4])
+            self.coord_for(c, self.dims)
+            if any(ci >= di for ci, di in zip(c, self.dims)):
+                raise Reject("Index")
+            if new:
+                try:
+                    m = self.grid.get_neighborhood_mask(c, include_center=ic, radius=r)
+                except ValueError as e:
+                    if "radius" in str(e):
+                        raise Reject("Value radius") from None
+                    raise
+            else:
+                m = self.grid.get_neighborhood_mask(c, {"moore": True, "vn": False}[w[5]], ic, r)
+            self.masks[K] = m
+            return self.fmt_sel(list(zip(*np.where(m))), m)
         raise ValueError(f"bad-op {w}")
 
     def taint_lid(self, lid):
@@ -543,7 +1005,7 @@ class Impl:
         att = self.attached()
         cd = {}
         for name, cmp, t in conds:
-            dt = self.layers[self.lid_of(att[name])][1] if name in att else "int"
+            dt = self.dt_of(att[name]) if name in att else "int"
             cd[name] = self.pred(dt, f"{cmp}:{t}")
         ev = {name: {"hi": "highest", "lo": "lowest", "bad": "biggest"}[m] for name, m in exts}
         if not marrs:
@@ -576,6 +1038,16 @@ class Impl:
         for name, lid in new["attached"].items():
             if new["views"][name] != new["layers"][lid]:
                 self.fail("views", f"cell view of {name!r} {new['views'][name]} != layer data {new['layers'][lid]} after {' '.join(w)}")
+        # (1b) grid.<name> is the attached layer, unless the scenario itself gave the grid an attribute of that name
+        # before; such an assignment is refused exactly while a layer of that name is attached
+        for name, same in new["gattr"].items():
+            if not same and name not in self.gset_names:
+                self.fail("grid-attr", f"grid.{name} is not the attached layer after {' '.join(w)}")
+        if k == "gset" and self.kind == "new":
+            if ok and w[1] in old["attached"]:
+                self.fail("grid-attr", f"{' '.join(w)} replaced the attribute of an attached layer")
+            if out == "err Attr" and w[1] not in old["attached"]:
+                self.fail("grid-attr", f"{' '.join(w)} refused although no layer of that name is attached")
         # (2) emptiness layer / mask = actual emptiness = where the agents are
         occ = tuple(int(all(p != c for p in new["where"].values())) for c in self.cells)
         if new["actual"] != occ:
@@ -594,33 +1066,82 @@ class Impl:
                 diff = [key for key in old if old[key] != new[key]]
                 self.fail("reject-unchanged", f"{' '.join(w)} -> {out} changed {diff}")
             return
+        # (3b) the dtype of a layer changes only by a successful typed modify on that layer, to numpy's result type
+        for lid, (a, b) in enumerate(zip(old["dtypes"], new["dtypes"])):
+            want = a
+            if k == "modify" and int(w[1]) == lid and is_typed(w[4]):
+                want = spec_result_dtype(w[3], a, w[4])
+            if b != want:
+                self.fail("dtype", f"after {' '.join(w)}: layer {lid} has dtype {b}, expected {want} (before: {a})")
         # (4) effect and frame of the successful call on all layer values
         exp = [list(x) for x in old["layers"]]
+
+        def stored(lid, tok):
+            """the entry a write of `tok` leaves in layer lid: a typed scalar is cast by the layer's dtype"""
+            return spec_cast(old["dtypes"][lid], tok) if is_typed(tok) else int(tok)
         empty_lid = old["attached"].get("empty") if self.kind == "new" else None
         skip = set()
         if k in ("create", "new"):
             lid = int(out.split("=")[1])
             dims = self.dims if k == "create" else parse_dims(w[2])
-            exp.append([int(w[-1])] * len(all_cells(dims)))
+            # np.full(dims, default, dtype): a default of another Python type is cast like an assignment
+            dflt = spec_cast(w[-2], w[-1]) if is_typed(w[-1]) else int(w[-1])
+            exp.append([dflt] * len(all_cells(dims)))
+            if new["dtypes"][lid] != w[-2]:
+                self.fail("dtype", f"{' '.join(w)}: the new layer's dtype is {new['dtypes'][lid]}")
             if lid != len(exp) - 1:
                 self.fail("effect", f"{' '.join(w)} returned id {lid}")
-        elif k == "lset":
+        elif k in ("lset", "cset2"):
             lid = int(w[1])
-            exp[lid][self.flat(self.ldims(self.layers[lid][0]), parse_coord(w[2]))] = int(w[3])
+            exp[lid][self.flat(self.ldims(self.layers[lid][0]), parse_coord(w[2]))] = stored(lid, w[3])
         elif k == "cset":
             lid = old["attached"].get(w[1])
             if lid is not None:
-                exp[lid][self.flat(self.dims, parse_coord(w[2]))] = int(w[3])
+                exp[lid][self.flat(self.dims, parse_coord(w[2]))] = stored(lid, w[3])
         elif k == "setcells":
             lid, p = int(w[1]), self.spec_pred(w[3])
-            exp[lid] = [int(w[2]) if p(x) else x for x in exp[lid]]
+            if is_typed(w[2]) and not spec_same_kind(w[2], old["dtypes"][lid]):
+                self.fail("cast", f"{' '.join(w)} accepted a cast that is not same_kind into a {old['dtypes'][lid]} layer")
+            v = stored(lid, w[2])
+            exp[lid] = [v if p(x) else x for x in exp[lid]]
+        elif k == "setfrom":
+            lid, p = int(w[1]), self.spec_pred(w[3])
+            _, sdt = self.handles[int(w[2])]
+            src, dt = old["handles"][int(w[2])], old["dtypes"][lid]
+            if RANK[sdt] > RANK[dt]:
+                self.fail("cast", f"{' '.join(w)} accepted a {sdt} array into a {dt} layer (not same_kind)")
+            else:
+                # positional: the entry at a cell comes from the source *at that cell*
+                exp[lid] = [from_quarters(dt, quarters(sdt, y)) if p(x) else x for x, y in zip(exp[lid], src)]
+        elif k == "modify" and is_typed(w[4]):
+            lid, p = int(w[1]), self.spec_pred(w[5])
+            dt = old["dtypes"][lid]
+            nd = spec_result_dtype(w[3], dt, w[4])
+            f = spec_typed_oper(w[3], dt, w[4])
+            # entries the condition leaves alone keep their *number*; the encoding is that of the new dtype
+            exp[lid] = [f(x) if p(x) else from_quarters(nd, quarters(dt, x)) for x in exp[lid]]
         elif k == "modify":
             lid, p, f = int(w[1]), self.spec_pred(w[5]), self.spec_oper(w[3], w[4] if w[4] != "none" else 0)
             exp[lid] = [f(x) if p(x) else x for x in exp[lid]]
+        elif k == "modcell" and is_typed(w[5]):
+            # numpy's result for the two scalars, cast back into the array by the assignment
+            lid = int(w[1])
+            i = self.flat(self.ldims(self.layers[lid][0]), parse_coord(w[2]))
+            dt = old["dtypes"][lid]
+            nd = spec_result_dtype(w[4], dt, w[5])
+            exp[lid][i] = spec_cast(dt, f"{nd[0]}:{spec_typed_oper(w[4], dt, w[5])(exp[lid][i])}")
         elif k == "modcell":
             lid = int(w[1])
             i = self.flat(self.ldims(self.layers[lid][0]), parse_coord(w[2]))
             exp[lid][i] = self.spec_oper(w[4], w[5] if w[5] != "none" else 0)(exp[lid][i])
+        elif k == "fromdata":
+            arr, dt = self.handles[int(w[2])]
+            exp.append(list(self.canon_arr(dt, arr)))
+            made = self.layers[int(out.split("=")[1])][0]
+            if self.np.shares_memory(made.data, arr):
+                self.fail("copy", f"{' '.join(w)}: the new layer shares memory with the source array")
+            if tuple(made.dimensions) != tuple(arr.shape) or self.dt_of(made) != dt:
+                self.fail("copy", f"{' '.join(w)}: shape/dtype {made.dimensions}/{self.dt_of(made)} of the layer differ from the array's {arr.shape}/{dt}")
         elif k == "hset":
             skip = set(range(len(exp)))  # which layer (if any) the handle still aliases is the model's business
         elif k in ("place", "move", "remove") and empty_lid is not None:
@@ -642,9 +1163,9 @@ class Impl:
         if expatt != new["attached"]:
             self.fail("attach", f"after {' '.join(w)}: attached {new['attached']}, expected {expatt}")
         # (5) reads return the value of the other view
-        if k in ("lget", "cget", "hget"):
+        if k in ("lget", "cget", "hget", "cget2"):
             v = int(out.split("=")[1])
-            if k == "lget":
+            if k in ("lget", "cget2"):
                 want = old["layers"][int(w[1])][self.flat(self.ldims(self.layers[int(w[1])][0]), parse_coord(w[2]))]
             elif k == "cget":
                 lid = old["attached"].get(w[1])
@@ -661,6 +1182,14 @@ class Impl:
         # (6) selection is exact, list form = mask form
         if k == "select":
             self.check_select(w, out, new)
+        if k == "nbmask":
+            # the mask describes the cells the neighbourhood query itself returns
+            c, ic, r = parse_coord(w[2]), w[3] == "1", int(w[4])
+            if self.kind == "new":
+                want = sorted(x.coordinate for x in self.grid[c].get_neighborhood(radius=r, include_center=ic))
+            else:
+                want = sorted(self.grid.get_neighborhood(c, w[5] == "moore", ic, r))
+            self.cmp_sel(w, out, self.cells, [tuple(int(v) for v in x) for x in want])
         if k == "lsel":
             lid, p = int(w[1]), self.spec_pred(w[2])
             cells = all_cells(self.ldims(self.layers[lid][0]))
@@ -785,6 +1314,8 @@ class Gen:
         self.lines = [f"scenario {self.kind} {'x'.join(map(str, self.dims))} {self.cap} {self.gridclass} {int(self.torus)}"]
         self.handles, self.saved, self.where = [], [], {}
         self.muls = 0
+        # names the cell class of the running code has (the generated table of the model): a layer may not take them
+        self.all_clash = cell_klass_probe() if self.kind == "new" else []
 
     # helpers -------------------------------------------------------------------------
     def val(self, dtype):
@@ -794,6 +1325,22 @@ class Gen:
         if dtype == "int":
             return R.choice([-3, -1, 0, 0, 1, 1, 2, 2, 3, 5, 9])
         return R.choice([-6, -2, 0, 0, 1, 2, 2, 4, 4, 6, 10, 18])
+
+    def tval(self, mul=False):
+        """a typed Python scalar: bool, int or float (floats also off the integers: +-0.5, 2.75, ...)"""
+        R = self.R
+        k = R.choice("bbiiifff")
+        if k == "b":
+            return f"b:{R.choice([0, 1])}"
+        if k == "i":
+            return f"i:{R.choice([-3, -1, 0, 1, 2, 3, 5])}"
+        if mul:
+            return f"f:{4 * R.choice([-1, 0, 1, 2, 3])}"  # integral, so that products stay multiples of 1/4
+        return f"f:{R.choice([-11, -6, -2, 0, 2, 4, 6, 10, 11, 16])}"
+
+    def wval(self, dtype, p=0.3):
+        """a written value: mostly a value of the layer's own dtype, sometimes a scalar of any type"""
+        return self.tval() if self.R.random() < p else self.val(dtype)
 
     def coord(self, dims, oob=0.04):
         R = self.R
@@ -831,14 +1378,22 @@ class Gen:
     def emit(self, line):
         self.lines.append(line)
 
+    def clash_pool(self):
+        """the six classic names, and (one time in three) any attribute name of the cell class"""
+        if self.all_clash and self.R.random() < 0.34:
+            return [self.R.choice(self.all_clash)]
+        return list(CLASH_NAMES)
+
     # ops ------------------------------------------------------------------------------
-    def op_create(self):
+    def op_create(self, force_name=None):
         R = self.R
         pool = list(GOOD_NAMES)
         r = R.random()
         bad = 0.45 if self.rejecting else 0.1
-        if r < bad:
-            name = R.choice(list(CLASH_NAMES) + ["empty"] + self.attached_names()[:2] if self.kind == "new"
+        if force_name is not None:
+            name = force_name
+        elif r < bad:
+            name = R.choice(self.clash_pool() + ["empty"] + self.attached_names()[:2] if self.kind == "new"
                             else (self.attached_names() or pool))
         else:
             free = [n for n in pool if n not in self.attached_names()]
@@ -846,7 +1401,7 @@ class Gen:
         # the grid itself writes raw True/False into whatever layer is called "empty": with the 1/4 encoding
         # of float layers that would not be the model's 1/0, so a user-made "empty" layer is bool or int
         dt = R.choice(DTYPES if name != "empty" else DTYPES[:2])
-        d = self.val(dt)
+        d = self.wval(dt, 0.25)  # a default of another Python type only draws a UserWarning: np.full casts it
         if R.random() < (0.3 if self.rejecting else 0.25):
             # free-standing layer, possibly mis-shaped, attached later
             if R.random() < (0.5 if self.rejecting else 0.2):
@@ -861,9 +1416,24 @@ class Gen:
             self.layers.append(dict(name=name, dtype=dt, dims=tuple(dims), att=False))
             return
         self.emit(f"create {name} {dt} {d}")
-        ok = name not in self.attached_names() and not (self.kind == "new" and (name in CLASH_NAMES))
+        ok = name not in self.attached_names() and not (self.kind == "new" and (name in self.all_clash))
         if ok:
             self.layers.append(dict(name=name, dtype=dt, dims=self.dims, att=True))
+
+    def op_gset(self):
+        """grid.NAME = <object>: refused while a layer of that name is attached; before that it shadows the layer"""
+        R = self.R
+        names = self.attached_names()
+        if names and R.random() < 0.6:
+            name = R.choice(names)
+        else:
+            name = R.choice(GOOD_NAMES)
+        self.emit(f"gset {name}")
+        if self.kind == "new" and name not in names and R.random() < 0.5:
+            # the code's own caveat: an attribute given to the grid before the layer exists is not protected
+            self.op_create(force_name=name)
+            self.emit(f"dumpn {name}")
+            self.emit(f"cget {name} {fmt_coord(self.coord(self.dims, oob=0))}")
 
     def op_attach(self):
         cands = [i for i, l in enumerate(self.layers) if not l["att"]]
@@ -875,7 +1445,7 @@ class Gen:
         l = self.layers[i]
         self.emit(f"attach {i}")
         if (not l["att"] and l["dims"] == self.dims and l["name"] not in self.attached_names()
-                and not (self.kind == "new" and l["name"] in CLASH_NAMES)):
+                and not (self.kind == "new" and l["name"] in self.all_clash)):
             l["att"] = True
 
     def op_detach(self):
@@ -895,7 +1465,7 @@ class Gen:
         if i is None:
             return self.op_create()
         l = self.layers[i] if i < len(self.layers) else dict(dims=self.dims, dtype="int")
-        self.emit(f"lset {i} {fmt_coord(self.coord(l['dims'], 0.15 if self.rejecting else 0.04))} {self.val(l['dtype'])}")
+        self.emit(f"lset {i} {fmt_coord(self.coord(l['dims'], 0.15 if self.rejecting else 0.04))} {self.wval(l['dtype'])}")
 
     def op_lget(self):
         i = self.lid(prefer_user=False)
@@ -915,7 +1485,7 @@ class Gen:
             return n
         if r < 0.93:
             return R.choice(GOOD_NAMES)
-        return R.choice(CLASH_NAMES)
+        return R.choice(self.clash_pool())
 
     def dtype_of_name(self, name):
         for l in self.layers:
@@ -925,17 +1495,31 @@ class Gen:
 
     def op_cset(self):
         n = self.name_for_cell()
-        self.emit(f"cset {n} {fmt_coord(self.coord(self.dims, 0.12 if self.rejecting else 0.04))} {self.val(self.dtype_of_name(n))}")
+        # (the grid writes raw True/False into whatever is called "empty": keep typed scalars away from it)
+        v = self.wval(self.dtype_of_name(n)) if n != "empty" else self.val(self.dtype_of_name(n))
+        self.emit(f"cset {n} {fmt_coord(self.coord(self.dims, 0.12 if self.rejecting else 0.04))} {v}")
 
     def op_cget(self):
         self.emit(f"cget {self.name_for_cell()} {fmt_coord(self.coord(self.dims))}")
+
+    def op_cell2(self):
+        """read / write a layer through the cells of a second grid it is added to as well"""
+        i = self.lid()
+        if i is None or self.kind != "new":
+            return self.op_cset()
+        l = self.layers[i] if i < len(self.layers) else dict(dims=self.dims, dtype="int")
+        c = fmt_coord(self.coord(l["dims"], 0.1 if self.rejecting else 0.03))
+        if self.R.random() < 0.5:
+            self.emit(f"cget2 {i} {c}")
+        else:
+            self.emit(f"cset2 {i} {c} {self.wval(l['dtype'])}")
 
     def op_setcells(self):
         i = self.lid()
         if i is None:
             return self.op_create()
         dt = self.layers[i]["dtype"] if i < len(self.layers) else "int"
-        self.emit(f"setcells {i} {self.val(dt)} {self.cond(dt)}")
+        self.emit(f"setcells {i} {self.wval(dt, 0.3)} {self.cond(dt)}")
 
     def oper(self, dt):
         R = self.R
@@ -958,11 +1542,53 @@ class Gen:
                 return f"{kind} mul {R.choice([-1, 0, 1, 2, 2, 3])}"
         return f"{kind} {op} {self.val(dt)}"
 
+    def op_shift(self):
+        """lift a numeric layer to magnitude 10^7 (once): its values now differ by a few units in 10^7 — exact, but
+        close enough for any tolerance-based comparison to confuse them (near ties for the extreme values)"""
+        cands = [i for i, l in enumerate(self.layers) if l["dtype"] != "bool" and not l.get("shifted")
+                 and not (self.kind == "new" and i == 0)]
+        if not cands:
+            return self.op_modify()
+        i = self.R.choice(cands)
+        l = self.layers[i]
+        l["shifted"] = True
+        self.emit(f"modify {i} ufunc add {10000000 * (UNIT if l['dtype'] == 'float' else 1)} -")
+
+    def op_setfrom(self):
+        """set_cells with an array value: a held array of the same shape, conditionally or not"""
+        R = self.R
+        if not self.handles:
+            return self.op_handle()
+        h, dims, hdt = R.choice(self.handles)
+        same = [i for i, l in enumerate(self.layers) if tuple(l["dims"]) == tuple(dims) and not (self.kind == "new" and i == 0)]
+        i = R.choice(same) if same and R.random() < 0.9 else self.lid()
+        if i is None:
+            return self.op_create()
+        dt = self.layers[i]["dtype"] if i < len(self.layers) else "int"
+        self.emit(f"setfrom {i} {h} {self.cond(dt)}")
+
     def op_modify(self):
+        R = self.R
         i = self.lid()
         if i is None:
             return self.op_create()
         dt = self.layers[i]["dtype"] if i < len(self.layers) else "int"
+        if R.random() < 0.35 and not (self.kind == "new" and i == 0):
+            # a typed operand: numpy's result type decides the dtype of the re-pointed layer
+            op = R.choice(["add", "add", "sub", "mul", "max", "min", "and", "or", "xor"])
+            kind = "ufunc" if op in ("max", "min") else R.choice(["ufunc", "fn"])
+            if op == "mul":
+                if self.muls >= 6:
+                    op = "add"
+                else:
+                    self.muls += 1
+            tok = self.tval(mul=(op == "mul"))
+            self.emit(f"modify {i} {kind} {op} {tok} {self.cond(dt)}")
+            if i < len(self.layers):
+                nd = spec_result_dtype(op, dt, tok)
+                if nd is not None:
+                    self.layers[i]["dtype"] = nd
+            return
         self.emit(f"modify {i} {self.oper(dt)} {self.cond(dt)}")
 
     def op_modcell(self):
@@ -972,10 +1598,23 @@ class Gen:
         if i is None:
             return self.op_create()
         l = self.layers[i] if i < len(self.layers) else dict(dims=self.dims, dtype="int")
-        self.emit(f"modcell {i} {fmt_coord(self.coord(l['dims'], 0.12 if self.rejecting else 0.04))} {self.oper(l['dtype'])}")
+        R = self.R
+        if R.random() < 0.35:
+            op = R.choice(["add", "add", "sub", "mul", "max", "min", "and", "or", "xor"])
+            oper = f"{R.choice(['ufunc', 'fn'])} {op} {self.tval(mul=(op == 'mul'))}"
+        else:
+            oper = self.oper(l["dtype"])
+        self.emit(f"modcell {i} {fmt_coord(self.coord(l['dims'], 0.12 if self.rejecting else 0.04))} {oper}")
 
     def op_handle(self):
         R = self.R
+        if self.handles and self.kind == "new" and R.random() < 0.2:
+            # PropertyLayer.from_data(name, <a held array>): a free-standing layer holding a copy
+            h, dims, dt = R.choice(self.handles)
+            name = R.choice(GOOD_NAMES)
+            self.emit(f"fromdata {name} {h}")
+            self.layers.append(dict(name=name, dtype=dt, dims=tuple(dims), att=False))
+            return
         if not self.handles or R.random() < 0.35:
             i = self.lid()
             if i is None:
@@ -992,7 +1631,7 @@ class Gen:
         if r < 0.4:
             self.emit(f"hget {h} {fmt_coord(self.coord(dims))}")
         elif r < 0.75:
-            self.emit(f"hset {h} {fmt_coord(self.coord(dims))} {self.val(dt)}")
+            self.emit(f"hset {h} {fmt_coord(self.coord(dims))} {self.wval(dt)}")
         else:
             self.emit(f"hdump {h}")
 
@@ -1005,6 +1644,8 @@ class Gen:
             self.emit(f"dump {i}")
         elif r < 0.55 and (names or True):
             self.emit(f"dumpn {R.choice(names + ['zz'] if R.random() < 0.1 or not names else names)}")
+        elif r < 0.62 and i is not None:
+            self.emit(f"dtype {i}")
         elif r < 0.8 and i is not None and i < len(self.layers):
             self.emit(f"lsel {i} {self.cond(self.layers[i]['dtype'], none_ok=False)}")
         elif i is not None and i < len(self.layers):
@@ -1047,6 +1688,21 @@ class Gen:
     def op_empties(self):
         self.emit("empties")
 
+    def op_nbmask(self):
+        """get_neighborhood_mask kept as a saved mask (later selections combine it with the other filters)"""
+        R = self.R
+        k = R.randrange(3)
+        c = self.coord(self.dims, 0.1 if self.rejecting else 0.03)
+        r = R.choice([1, 1, 1, 2, 2, 3]) if R.random() > (0.15 if self.rejecting else 0.03) else 0
+        ic = R.choice([0, 1])
+        line = f"nbmask {k} {fmt_coord(c)} {ic} {r}"
+        if self.kind != "new":
+            line += " " + R.choice(["moore", "vn"])
+        self.emit(line)
+        ok = all(x < d for x, d in zip(c, self.dims)) and not (self.kind == "new" and (self.gridclass == "hex" or r == 0))
+        if ok and k not in self.saved:
+            self.saved.append(k)
+
     def op_select(self, combo=None):
         R = self.R
         if combo is None:
@@ -1074,7 +1730,7 @@ class Gen:
         if combo & 8:
             pool = list(names)
             R.shuffle(pool)
-            for n in pool[: R.choice([1, 1, 1, 2])]:
+            for n in pool[: R.choice([1, 1, 2, 2])]:
                 exts.append(f"{n}:{R.choice(['hi', 'lo'])}")
             if not exts or R.random() < (0.2 if self.rejecting else 0.03):
                 exts.append(R.choice(["zz:hi", (names or ["zz"])[0] + ":bad"]))
@@ -1102,7 +1758,8 @@ def gen_scenario(R, kind=None, rejecting=False, n_ops=None):
     table = [
         (g.op_create, 4), (g.op_attach, 4), (g.op_detach, 4), (g.op_lset, 8), (g.op_lget, 4), (g.op_cset, 9),
         (g.op_cget, 7), (g.op_setcells, 8), (g.op_modify, 10), (g.op_modcell, 3), (g.op_handle, 8), (g.op_read, 7),
-        (g.op_agent, 14), (g.op_empties, 3), (g.op_select, 14),
+        (g.op_agent, 14), (g.op_empties, 3), (g.op_select, 14), (g.op_nbmask, 4), (g.op_cell2, 4), (g.op_shift, 2), (g.op_setfrom, 5),
+        (g.op_gset, 2),
     ]
     if rejecting:
         table = [(f, w * (3 if f in (g.op_create, g.op_attach, g.op_detach) else 1)) for f, w in table]
@@ -1138,10 +1795,24 @@ def tags(sc, obs):
             t.append("select-result:" + ("none" if not lst else "all" if "0" not in bits else "proper-subset"))
         if w[0] in ("create", "new") and o.startswith("ok"):
             t.append("dtype:" + w[-2])
+        if w[0] == "select" and o.startswith("ok") and any(m.startswith("s") for m in dict(x.split("=", 1) for x in w[1:])["masks"].split(",")):
+            t.append("select:with-saved-mask")
+        if w[0] == "setfrom" and o.startswith("ok"):
+            t.append("setfrom" + (":cond" if w[3] != "-" else ""))
+        if w[0] == "modify" and o.startswith("ok") and w[4].lstrip("-").isdigit() and abs(int(w[4])) >= 10000000:
+            t.append("modify:shift-to-1e7")
+        if w[0] == "nbmask" and o.startswith("ok"):
+            t.append("nbmask:r" + w[4] + (":center" if w[3] == "1" else ""))
+        if w[0] == "modcell" and o.startswith("ok") and is_typed(w[5]):
+            t.append("modcell:typed-" + w[5][0])
         if w[0] == "modify" and o.startswith("ok"):
-            t.append("modify:" + w[2] + (":cond" if w[5] != "-" else ""))
+            t.append("modify:" + w[2] + (":cond" if w[5] != "-" else "") + (":typed-" + w[4][0] if is_typed(w[4]) else ""))
         if w[0] == "setcells" and o.startswith("ok"):
-            t.append("setcells" + (":cond" if w[3] != "-" else ""))
+            t.append("setcells" + (":cond" if w[3] != "-" else "") + (":typed-" + w[2][0] if is_typed(w[2]) else ""))
+        if w[0] in ("lset", "cset", "hset") and o.startswith("ok") and is_typed(w[3]):
+            t.append(f"typed-write:{w[0]}:{w[3][0]}")
+        if w[0] == "dtype" and o.startswith("ok"):
+            t.append("dtype-read:" + o.split("=")[1])
         for x in t:
             if x not in seen:
                 seen.add(x)
@@ -1152,6 +1823,6 @@ def tags(sc, obs):
 
 def nontrivial(sc, obs):
     ops = [l.split()[0] for l, o in zip(sc.lines, obs) if o.startswith("ok")]
-    writes = sum(1 for k in ops if k in ("lset", "cset", "setcells", "modify", "modcell", "hset", "place", "move", "remove"))
-    reads = sum(1 for k in ops if k in ("cget", "lget", "select", "hget", "dumpn"))
+    writes = sum(1 for k in ops if k in ("lset", "cset", "cset2", "setcells", "modify", "modcell", "hset", "place", "move", "remove", "fromdata", "setfrom"))
+    reads = sum(1 for k in ops if k in ("cget", "cget2", "lget", "select", "hget", "dumpn"))
     return writes >= 2 and reads >= 1
